@@ -294,6 +294,32 @@ def check_outputs(p, db, bi, expected_comments, case, text):
                 p['violations'].append(violation(PID, 'comment-line-missing-in-sql', dict(case, document=text[:1500], element=path), expected='-- ' + l, observed=sql[:1000],
                                                  detail=f'{case["where"]}: .sql has no line "-- {l}" for the comment of {path}'))
                 break
+    # a commented reference that is afterwards made inline (API edit) is emitted as a FOREIGN KEY clause of its table: the comment goes with it
+    for path, c in expected_comments.items():
+        mm = re.match(r'\.refs\[(\d+)\]$', path)
+        if not mm or int(mm[1]) >= len(db.refs):
+            continue
+        r = db.refs[int(mm[1])]
+        if r.inline or r.type == '<>':
+            continue
+        r.inline = True
+        try:
+            sql2 = db.sql
+            ddl.read(sql2)
+            lines2 = sql_comment_lines(sql2)
+            for l in c.split('\n'):
+                if l.strip() not in lines2:
+                    p['violations'].append(violation(PID, 'comment-line-missing-in-sql', dict(case, document=text[:1500], element=path, edit='inline=True'), expected='-- ' + l,
+                                                     observed=sql2[:1000], detail=f'{case["where"]}: after making {path} inline, .sql has no line "-- {l}" for its comment'))
+                    break
+        except ddl.DDLError as e:
+            p['violations'].append(violation(PID, 'comment-text-became-sql', dict(case, document=text[:1500], element=path, edit='inline=True'), observed=sql2[:1000],
+                                             detail=f'{case["where"]}: after making {path} inline, .sql cannot be read back: {e}'))
+        except Exception as e:
+            p['violations'].append(violation(PID, 'sql-raised', dict(case, document=text[:1500], element=path, edit='inline=True'), observed=exc_info(e),
+                                             detail=f'{case["where"]}: after making {path} inline, .sql raised {type(e).__name__}: {e}'))
+        finally:
+            r.inline = False
 
 
 def target_path(bi, kind, path):
